@@ -161,6 +161,10 @@ def check_C19(tier):
     simple.append(("c2p", dict(op="c2p", command="echo '  foo'; echo 'bar  '; echo"), {}, ["  foo", "bar  ", ""]))
     simple.append(("f2p", dict(op="f2p", path="in/p2.txt"), {"in/p2.txt": "\n  indented\nlast  \n\n"}, ["", "  indented", "last  ", ""]))
     simple.append(("f2p", dict(op="f2p", path="in/p3.txt"), {"in/p3.txt": ""}, []))
+    # last line without a trailing newline; a single unterminated line; CRLF is not special
+    simple.append(("f2p", dict(op="f2p", path="in/p4.txt"), {"in/p4.txt": "alpha\nbeta\ngamma"}, ["alpha", "beta", "gamma"]))
+    simple.append(("f2p", dict(op="f2p", path="in/p5.txt"), {"in/p5.txt": "only"}, ["only"]))
+    simple.append(("c2p", dict(op="c2p", command="printf 'x\\ny'"), {}, ["x", "y"]))
     def two(j):
         return j, run_comp(j[1], j[2], bufsize=2)
     for (kind, case, files, want), res in pmap(two, simple, workers=8):
